@@ -14,6 +14,7 @@ macro_rules! dispatch {
     ($id:expr, $f:ident, $($args:expr),*) => {
         match $id {
             "C01" => $f(&props::c01::C01, $($args),*),
+            "C02" => $f(&props::c02::C02, $($args),*),
             other => {
                 eprintln!("unknown property {}", other);
                 2
